@@ -16,10 +16,12 @@ from __future__ import annotations
 import itertools
 import json
 import logging
+import multiprocessing
 import os
 import re
 import tempfile
 import threading
+import time
 from typing import Any, Dict, Iterable, List, Optional, Sequence, Set, Tuple
 from uuid import uuid4
 
@@ -101,7 +103,7 @@ class _LogHandler(logging.Handler):
         if _SINK is not None:
             _SINK.append(f"L{m.group(1)}")
         if os.environ.get(F.LOG_ENV):
-            F.log_event(ev="L", ext=int(m.group(1)), tid=threading.get_ident())
+            F.log_event(ev="L", ext=int(m.group(1)), msg=rec.getMessage()[:160], tid=threading.get_ident())
 
 
 class _Logging:
@@ -608,7 +610,53 @@ def stop_flight_server() -> None:
             pass
 
 
-def run_plan(plan: Dict[str, Any], mode: str, exts: Optional[List[Dict[str, Any]]], logdir: str) -> Dict[str, Any]:
+RUN_TIMEOUT = 60.0
+FLAKES = {"hangs_retried": 0}
+
+
+def kill_stray_children() -> None:
+    """Terminate child processes left behind by a run that did not end (manager, workers) - everything except this
+    check's own flight server."""
+    srv = _FLIGHT.get("srv")
+    keep = srv.flight_server_process.pid if (srv is not None and srv.flight_server_process is not None) else None
+    for ch in multiprocessing.active_children():
+        if ch.pid != keep:
+            try:
+                ch.terminate()
+                ch.join(2)
+                if ch.is_alive():
+                    ch.kill()
+            except Exception:
+                pass
+
+
+def read_settled_log(log: str) -> List[Dict[str, Any]]:
+    """The API call has returned or raised; wait until the event file stops growing (writers in worker processes that
+    are being torn down), then read it."""
+    last = -1
+    for _ in range(100):
+        size = os.path.getsize(log) if os.path.exists(log) else 0
+        if size == last:
+            break
+        last = size
+        time.sleep(0.03)
+    events = []
+    if os.path.exists(log):
+        with open(log) as fh:
+            for line in fh:
+                try:
+                    events.append(json.loads(line))
+                except Exception:
+                    pass
+        try:
+            os.remove(log)
+        except OSError:
+            pass
+    return events
+
+
+def run_plan_once(plan: Dict[str, Any], mode: str, exts: Optional[List[Dict[str, Any]]], logdir: str) -> Dict[str, Any]:
+    from harness import schedlib as S
     from mloda.user import mloda
     from mloda.core.abstract_plugins.components.feature import Feature
     from mloda.core.abstract_plugins.components.parallelization_modes import ParallelizationMode
@@ -626,35 +674,48 @@ def run_plan(plan: Dict[str, Any], mode: str, exts: Optional[List[Dict[str, Any]
         extset = set(objs)
         order = [x.ident for x in extset]
     _COUNTER["n"] = 0
+    fsrv = flight_server() if mode == "MULTIPROCESSING" else None
+
+    def call() -> Dict[str, Any]:
+        try:
+            res = mloda.run_all(
+                [Feature(n) for n in plan["request"]],
+                compute_frameworks=set(fws),
+                plugin_collector=F.collector(classes),
+                parallelization_modes={ParallelizationMode[mode]},
+                function_extender=extset,
+                flight_server=fsrv,
+            )
+            return {"ok": True, "tables": sorted((F.to_columns(r) for r in res), key=lambda t: sorted(t.keys()))}
+        except Exception as e:  # noqa: BLE001
+            return {"ok": False, "err": (repr(e) + str(e))[-int(os.environ.get("VERIF_ERRLEN", "400")) :]}
+
     os.environ[F.LOG_ENV] = log
     try:
-        res = mloda.run_all(
-            [Feature(n) for n in plan["request"]],
-            compute_frameworks=set(fws),
-            plugin_collector=F.collector(classes),
-            parallelization_modes={ParallelizationMode[mode]},
-            function_extender=extset,
-            flight_server=flight_server() if mode == "MULTIPROCESSING" else None,
-        )
-        out: Dict[str, Any] = {"ok": True, "tables": sorted((F.to_columns(r) for r in res), key=lambda t: sorted(t.keys()))}
-    except Exception as e:  # noqa: BLE001
-        out = {"ok": False, "err": (repr(e) + str(e))[-int(os.environ.get("VERIF_ERRLEN", "400")):]}
+        fin, out = S.guarded(call, RUN_TIMEOUT)
     finally:
         os.environ.pop(F.LOG_ENV, None)
-    events = []
-    if os.path.exists(log):
-        with open(log) as fh:
-            for line in fh:
-                try:
-                    events.append(json.loads(line))
-                except Exception:
-                    pass
-        os.remove(log)
-    out["events"] = events
+    if not fin or not isinstance(out, dict):
+        out = {"ok": False, "hang": True, "err": f"run did not end within {RUN_TIMEOUT:.0f} s"}
+    out["events"] = read_settled_log(log)
     out["order"] = order
     out["info"] = info
     if extset is not None:
         out["prio"] = {str(o.ident): o.priority for o in extset}
+    return out
+
+
+def run_plan(plan: Dict[str, Any], mode: str, exts: Optional[List[Dict[str, Any]]], logdir: str) -> Dict[str, Any]:
+    """One mloda run under a watchdog.  A run that does not end is repeated once after the stray children were removed:
+    a fork of the manager / worker processes from a multi-threaded parent can deadlock the child under load (an OS-level
+    hazard that does not reproduce); only a hang that happens twice in a row is handed on (`hang`)."""
+    out = run_plan_once(plan, mode, exts, logdir)
+    if out.get("hang"):
+        kill_stray_children()
+        FLAKES["hangs_retried"] += 1
+        out = run_plan_once(plan, mode, exts, logdir)
+        if out.get("hang"):
+            kill_stray_children()
     return out
 
 
@@ -779,67 +840,98 @@ def oracle_e2e(ctx: Ctx, case: Dict[str, Any], run: Dict[str, Any], base: Dict[s
             ctx.violation("e2e", case, what(f"extender/wrapped events for unknown group {g}"), None)
 
 
+def model_mismatches(case: Dict[str, Any], run: Dict[str, Any], cands: Dict[bool, List[Any]]) -> List[Tuple[Any, Any, Any]]:
+    """Compare one run with the model: `cands[derived]` are the model's step results (one per candidate iteration order
+    of the extender set) for a root / derived group.  Returns (case description, impl, model) triples."""
+    out: List[Tuple[Any, Any, Any]] = []
+    ex = case["exts"]
+    unprot = any(sum(hk in e["wraps"] for e in ex) == 1 and any(hk in e["wraps"] and e["beh"] != "pass" for e in ex) for hk in HOOKS)
+    if run.get("hang"):
+        return out  # reported by the oracle as 'did not end'
+    pred_fail = False
+    for b in [b for b in blocks_of(run["events"]) if b["key"] is not None]:
+        gi = run["info"].get(b["group"] or "?")
+        if gi is None:
+            continue
+        cs = cands[bool(gi["derived"])]
+        flat = [sum((s["trace"] for s in o["segs"]), []) for o in cs]
+        if b["items"] not in flat:
+            out.append(({"case": case, "group": b["group"], "run_ok": run["ok"], "err": run.get("err", "")[-200:]}, b["items"], flat[:3]))
+        if any(not o["ok"] for o in cs):
+            pred_fail = True
+    if run["ok"] and pred_fail:
+        out.append((case, "run ok", "model: a step fails (unprotected single raising extender)"))
+    if (not run["ok"]) and not unprot:
+        out.append((case, "run failed: " + run.get("err", "")[-200:], "model: all steps complete"))
+    return out
+
+
 def check_e2e(ctx: Ctx, cases: List[Dict[str, Any]], logdir: str) -> None:
     base_cache: Dict[str, Dict[str, Any]] = {}
-    lean_reqs: List[Dict[str, Any]] = []
-    lean_meta: List[Tuple[int, str, List[str], int]] = []
-    runs = []
-    for ci, case in enumerate(cases):
+
+    def baseline(case: Dict[str, Any], fresh: bool = False) -> Dict[str, Any]:
         bk = json.dumps([case["plan"], case["mode"]], sort_keys=True)
-        if bk not in base_cache:
+        if fresh or bk not in base_cache:
             base_cache[bk] = run_plan(case["plan"], case["mode"], None, logdir)
             ctx.evaluations += 1
-        base = base_cache[bk]
-        run = run_plan(case["plan"], case["mode"], case["exts"], logdir)
-        runs.append(run)
+        return base_cache[bk]
+
+    # pass 1: every case once
+    runs = []
+    for case in cases:
+        baseline(case)
+        runs.append(run_plan(case["plan"], case["mode"], case["exts"], logdir))
+    # the model's candidates per case: SYNC - the iteration order of the very set that was passed; other modes - every
+    # order (each cfw object holds its own unpickled copy of the set); they do not depend on the run, so re-runs reuse them
+    reqs: List[Dict[str, Any]] = []
+    spans: List[Tuple[int, int]] = []
+    for case, run in zip(cases, runs):
+        by = {e["id"]: e for e in case["exts"]}
+        prio = run.get("prio") or {str(e["id"]): (100 if e["prio"] is None else e["prio"]) for e in case["exts"]}
+        orders = [run["order"]] if case["mode"] == "SYNC" else [list(p) for p in itertools.permutations(sorted(by))]
+        spans.append((len(reqs), len(orders)))
+        for derived in (False, True):
+            for od in orders:
+                exts = [{"id": i, "prio": prio[str(i)], "wraps": by[i]["wraps"], "beh": by[i]["beh"]} for i in od]
+                reqs.append({"op": "C20.step", "exts": exts, "dataBefore": derived, "dataAfter": True})
+    outs = ctx.lean.batch(reqs) if ctx.lean is not None else None
+    for ci, (case, run) in enumerate(zip(cases, runs)):
+        base = baseline(case)
+        cands = None
+        if outs is not None:
+            k0, n = spans[ci]
+            cands = {False: outs[k0 : k0 + n], True: outs[k0 + n : k0 + 2 * n]}
+        problems = model_mismatches(case, run, cands) if cands else []
+        # THREADING / MULTIPROCESSING runs are subject to scheduling: a case whose trace no model trace matches (or whose
+        # baseline failed) is re-run up to 2 more times and counted as a disagreement only if it never matches
+        tries = 0
+        first_problem = None
+        while case["mode"] != "SYNC" and tries < 2 and (problems or not base["ok"]) and not (run.get("hang") or base.get("hang")):
+            if first_problem is None:
+                first_problem = problems[0][1] if problems else "baseline failed: " + base.get("err", "")[-160:]
+            tries += 1
+            if not base["ok"]:
+                base = baseline(case, fresh=True)
+            run = run_plan(case["plan"], case["mode"], case["exts"], logdir)
+            ctx.evaluations += 1
+            problems = model_mismatches(case, run, cands) if cands else []
+        if tries and not problems and base["ok"] and len(ctx.notes) < 12:
+            ctx.note(f"e2e {case['mode']} case matched the model only after {tries} re-run(s); first attempt: {str(first_problem)[:260]}")
         ex = case["exts"]
         nsteps = len(run["info"])
         nm = {hk: sum(hk in e["wraps"] for e in ex) for hk in HOOKS}
-        ctx.case("e2e", case, nsteps >= 2 and (max(nm.values()) >= 2 or any(e["beh"] != "pass" for e in ex)), mode=case["mode"], steps=nsteps, e2e_n_ext=len(ex), e2e_raisers=sum(e["beh"] != "pass" for e in ex))
+        ctx.case("e2e", case, nsteps >= 2 and (max(nm.values()) >= 2 or any(e["beh"] != "pass" for e in ex)), mode=case["mode"], steps=nsteps, e2e_n_ext=len(ex), e2e_raisers=sum(e["beh"] != "pass" for e in ex), e2e_reruns=tries)
+        if run.get("hang") or base.get("hang"):
+            ctx.violation("e2e", case, f"{case['mode']}: run did not end (twice in a row, {RUN_TIMEOUT:.0f} s each; {'with' if run.get('hang') else 'without'} extenders)", None)
+            continue
         if any(e.get("ev") == "E" for e in base["events"]):
             ctx.violation("e2e", case, "extender events in a run without extenders", None)
         oracle_e2e(ctx, case, run, base)
-        # model comparison per step block
-        by = {e["id"]: e for e in ex}
-        blocks = [b for b in blocks_of(run["events"]) if b["key"] is not None]
-        for b in blocks:
-            gi = run["info"].get(b["group"] or "?")
-            if gi is None:
-                continue
-            orders: List[List[int]]
-            if case["mode"] == "SYNC":
-                orders = [run["order"]]
-            else:
-                orders = [list(p) for p in itertools.permutations(sorted(by))]
-            for od in orders:
-                exts = [{"id": i, "prio": run["prio"][str(i)], "wraps": by[i]["wraps"], "beh": by[i]["beh"]} for i in od]
-                lean_reqs.append({"op": "C20.step", "exts": exts, "dataBefore": gi["derived"], "dataAfter": True})
-            lean_meta.append((ci, b["group"], b["items"], len(orders)))
-    if ctx.lean is None:
-        return
-    outs = ctx.lean.batch(lean_reqs)
-    k = 0
-    for ci, group, items, norders in lean_meta:
-        cands = outs[k : k + norders]
-        k += norders
-        flat = [sum((s["trace"] for s in o["segs"]), []) for o in cands]
-        if items not in flat:
-            ctx.disagree("e2e", {"case": cases[ci], "group": group}, items, flat[:3])
-    # failed runs must be predicted by the model (a step not ok) and vice versa
-    k = 0
-    pred_fail: Dict[int, bool] = {}
-    for ci, group, items, norders in lean_meta:
-        cands = outs[k : k + norders]
-        k += norders
-        if any(not o["ok"] for o in cands):
-            pred_fail[ci] = True
-    for ci, (case, run) in enumerate(zip(cases, runs)):
-        ex = case["exts"]
-        unprot = any(sum(hk in e["wraps"] for e in ex) == 1 and any(hk in e["wraps"] and e["beh"] != "pass" for e in ex) for hk in HOOKS)
-        if run["ok"] and pred_fail.get(ci):
-            ctx.disagree("e2e", case, "run ok", "model: a step fails (unprotected single raising extender)")
-        if (not run["ok"]) and not unprot:
-            ctx.disagree("e2e", case, "run failed: " + run.get("err", "")[-200:], "model: all steps complete")
+        for c, i, m in problems:
+            ctx.disagree("e2e", c, i, m)
+    if FLAKES["hangs_retried"]:
+        ctx.tag("e2e_hangs_retried", "runs", FLAKES["hangs_retried"])
+        FLAKES["hangs_retried"] = 0
 
 
 def gen_e2e_cases(ctx: Ctx, n: int) -> List[Dict[str, Any]]:
